@@ -261,7 +261,7 @@ func VxH19split() {
 	}
 	leftovers := false
 	for _, p := range vxFSList(".") {
-		if strings.HasPrefix(p, "_scipipe_tmp") {
+		if strings.HasPrefix(p, vxTempPrefix()) {
 			leftovers = true
 		}
 	}
